@@ -4,6 +4,7 @@ package main
 // Contracts are stated next to each model.
 
 import (
+	"strings"
 	"encoding/hex"
 	"fmt"
 	"go/types"
@@ -34,6 +35,20 @@ func (e *Engine) predApp(base string, res Sort, ss ...StringVal) *Term {
 		ids[i] = e.strID(s)
 	}
 	app := e.uf(name, ids, res)
+	if (strings.HasPrefix(base, "P_expandOK") || strings.HasPrefix(base, "P_reok")) && len(ss) > 0 && ss[0].Atom != nil {
+		// validity of a CONCRETE member without template actions does not depend on the rule: it is what the real
+		// regexp compiler says (keeps models natively realisable: "team" is never an invalid pattern)
+		for _, c := range ss[0].Cands {
+			if strings.Contains(c, "{{") {
+				continue
+			}
+			_, err := regexp.Compile(ss[0].Pre + c + ss[0].Suf)
+			ac := append([]*Term(nil), ids...)
+			ac[0] = ConstInt(int64(e.intern(c)))
+			fact := Eq(e.uf(name, ac, res), ConstBool(err == nil))
+			e.axiom("revalid|"+name+"|"+fact.String(), fact)
+		}
+	}
 	if deco >= 0 {
 		s := ss[deco]
 		for _, c := range s.Cands {
